@@ -378,9 +378,12 @@ def observe(spec):
             first = arg if spec["warmup"] == "same" else pcvl.Matrix(make_matrix("haar", spec["n"], spec["seed"] + 13))
             w = Circuit.decomposition(first, block, **kw)
             out["warmup_result"] = "none" if w is None else "circuit"
+            out["warmup_changed_arg"] = bool(np.max(np.abs(np.array(arg, dtype=complex) - u0)) > 0)
+            out["warmup_arg_unitary"] = bool(arg.is_unitary())
         with _AttemptLog() as al:
             c = Circuit.decomposition(arg, block, **kw)
         out["attempts"] = al.log
+        out["arg_unitary_after"] = bool(arg.is_unitary())
         out["input_changed"] = bool(np.max(np.abs(np.array(arg, dtype=complex) - u0)) > 0)
         out["input_diff"] = [[i, j] for i in range(u0.shape[0]) for j in range(u0.shape[1])
                              if complex(np.array(arg, dtype=complex)[i, j]) != complex(u0[i, j])]
@@ -584,8 +587,8 @@ def judge_attempts(chk, obs, U):
     * directly on the implementation (hypothesis `hleave` of `retry_reconstruct_with_error`): every attempt must start
       from the requested (pre-processed) matrix, up to entries of modulus <= precision replaced by 0 — nothing of an
       abandoned attempt may reach the next one;
-    * against the Lean model (`inPlace`, op `leave`): the array object after an attempt is the array before it with
-      exactly the entries the model says are written in place (`u[n, j] = 0` of the leading identity skips);
+    * against the Lean model (`retry … id`): the array object shared by the attempts is left untouched by an attempt
+      (the in-place writes of the pinned code, model `inPlace` / op `leave`, are recognised: `caller-matrix-modified`);
     * the number of attempts: at most `max_try`, and exactly `max_try` when nothing is returned."""
     spec = obs["spec"]
     att = obs.get("attempts")
@@ -621,13 +624,16 @@ def judge_attempts(chk, obs, U):
                     f"attempt {k + 1} of the retry loop was started on a matrix that differs from the requested one in "
                     f"{len(bad)} entries, e.g. [{i},{j}] = {cur[i, j]:.6g} instead of {first[i, j]:.6g} (attempt {k} "
                     f"had solved {att[k - 1]['solved']} cell(s) before it was abandoned)")
-    # model of the in-place writes, on the first attempts (each costs one request)
-    wrote = False
-    for k, a in enumerate(att[:3]):
+    # the array object shared by the attempts (it is the caller's matrix, or a view of it): the model (`retry … id`,
+    # every attempt on a private copy) says an attempt leaves it exactly as it was.  The pinned code wrote
+    # `u[n, j] = 0` of its leading identity skips into it (model `inPlace`, op `leave`): recognised and named.
+    for k, a in enumerate(att):
         if a.get("after") is None:
             continue
         before, after = cm(a["in"]), cm(a["after"])
-        ok = False
+        if np.array_equal(before, after):
+            continue
+        diff = [(i, j) for i in range(n) for j in range(n) if before[i, j] != after[i, j]]
         for scale in (1.0, 1.0 + 1e-6, 1.0 - 1e-6):
             rep = chk.lean.ask({"op": "leave", "m": n, "U": core.mat(before), "prec": core.rat(prec * scale),
                                 "ignore": bool(spec.get("ignore", True))})
@@ -637,17 +643,23 @@ def judge_attempts(chk, obs, U):
             for i, j in rep["zeroed"]:
                 want[i, j] = 0
             if not rep["other"] and np.array_equal(want, after):
-                ok = True
-                wrote = wrote or bool(rep["zeroed"])
-                break
-        if not ok:
-            diff = [(i, j) for i in range(n) for j in range(n) if want[i, j] != after[i, j]]
-            return ("broken", "attempt-in-place-writes",
-                    f"attempt {k + 1}: the array shared by all attempts differs after the attempt from what the model "
-                    f"predicts (in-place writes {rep['zeroed']}); entries {diff[:6]}")
-    if wrote:
-        hit(chk, obs, "attempt-wrote-in-place")
-        chk.count("wrote_in_place_kind", spec["kind"])
+                kind = "violation" if obs.get("arg_unitary_after") is False else "broken"
+                return (kind, "caller-matrix-modified",
+                        f"the call wrote into the matrix object of its caller (entries {diff[:6]} set to 0, as the "
+                        f"in-place model of the pinned decompose_triangle predicts)"
+                        + ("; the caller's matrix is no longer unitary for Matrix.is_unitary, the same request "
+                           "repeated on it is refused" if kind == "violation" else ""))
+        return ("broken", "attempt-in-place-writes",
+                f"attempt {k + 1}: the array shared by all attempts was modified by the attempt (model: every attempt "
+                f"works on a private copy); entries {diff[:6]}, e.g. {before[diff[0]]:.6g} -> {after[diff[0]]:.6g}")
+    # the shape on which the pinned code wrote into the caller's matrix (asked from the model, not from the tree)
+    rep = chk.lean.ask({"op": "leave", "m": n, "U": core.mat(first), "prec": core.rat(prec),
+                        "ignore": bool(spec.get("ignore", True))})
+    if "err" in rep:
+        return ("broken", "lean-leave", f"model rejected the request: {rep['err']}")
+    if rep["zeroed"]:
+        hit(chk, obs, "negligible-entries-in-leading-skips")
+        chk.count("leading_skip_kind", spec["kind"])
     if "flat" in obs and len(att) >= 2:
         hit(chk, obs, "retry-then-circuit")
         if any(a["solved"] > 0 for a in att[:-1]):
@@ -670,6 +682,10 @@ def judge(chk, obs):
             return ("broken", "malformed-input-accepted",
                     f"malformed request ({spec['malformed']}) gave {got or 'a result'} instead of {want}")
         return None
+    if "exc" in obs and obs.get("warmup_changed_arg") and not obs.get("warmup_arg_unitary", True):
+        return ("violation", "caller-matrix-modified",
+                f"a first Circuit.decomposition on this Matrix object wrote into it; the same request repeated on the same "
+                f"object raises {obs['exc']}: {obs.get('msg')}")
     if "exc" in obs:
         return ("violation", "raises-" + obs["exc"], f"Circuit.decomposition raised {obs['exc']}: {obs.get('msg')}")
     chk.count("result", ("none" if obs.get("none") else "circuit") + ":" + spec["block"])
@@ -1311,10 +1327,10 @@ def run(chk: core.Check):
                              # the retry loop: an attempt abandoned after it had solved cells, then a successful one;
                              # in-place writes into the array shared by the attempts; a long-lived block object
                              "block-bounded-nonperiodic", "retry-then-circuit", "retry-after-partial-attempt",
-                             "attempt-wrote-in-place", "block-reused",
+                             "negligible-entries-in-leading-skips", "block-reused",
                              # … and the same shapes out of the random generator, not only from the corpus
                              "small-entry-above-tolerance/generated", "retry-then-circuit/generated",
-                             "retry-after-partial-attempt/generated", "attempt-wrote-in-place/generated",
+                             "retry-after-partial-attempt/generated", "negligible-entries-in-leading-skips/generated",
                              "block-reused/generated",
                              # solve.py itself against its Lean model
                              "solve-all-imposed-accept", "solve-all-imposed-reject", "solve-no-parameter",
